@@ -18,6 +18,8 @@ jsonable = Union[None, str, bool, float, int,
 
 class Serializer:
 
+    RESERVED_KEYS = ('_is_task', '_is_enum', '_is_dict')
+
     def is_serialized_task(self, serialized: jsonable) -> bool:
         return isinstance(serialized, dict) and bool(serialized.get('_is_task', False))
 
@@ -69,10 +71,15 @@ class Serializer:
         elif isinstance(value, tuple):
             return [self.serialize_value(item) for item in value]
         elif isinstance(value, frozendict):
-            return {
+            serialized_dict = {
                 ensure_dict_key_str(key, exception_type=SerializationError): self.serialize_value(value)
                 for key, value in value.items()
             }
+            if any(key in self.RESERVED_KEYS for key in serialized_dict):
+                # Wrap dictionaries that use a reserved key, so that they
+                # cannot be mistaken for a serialized task or enum.
+                return {'_is_dict': True, 'items': serialized_dict}
+            return serialized_dict
         elif isinstance(value, Enum):
             return self.serialize_enum(value)
         elif ((value is None)
@@ -89,6 +96,13 @@ class Serializer:
             return self.deserialize_task(cast(dict[str, jsonable], value), result_meta=None)
         elif self.is_serialized_enum(value):
             return self.deserialize_enum(cast(dict[str, jsonable], value))
+        elif isinstance(value, dict) and bool(value.get('_is_dict', False)):
+            items = cast(dict[str, jsonable], value['items'])
+            return {key: self.deserialize_value(item) for key, item in items.items()}
+        elif isinstance(value, list):
+            return [self.deserialize_value(item) for item in value]
+        elif isinstance(value, dict):
+            return {key: self.deserialize_value(item) for key, item in value.items()}
         return value
 
     def is_serialized_enum(self, serialized: jsonable) -> bool:
